@@ -70,6 +70,23 @@ def accessor_agreement(ctx, p, rule):
             ctx.fail(rule, b.path, "return value", "%s returns %s, expected self.%s%s" % (name, show(ret)[:80], field, "[stream_index]" if indexed else ""), b.loc())
 
 
+def _is_loop_sum(b, eb, x):
+    """x is `let mut s = 0.0; for w in weight { s += *w }` - the sum of the whole `weight` slice
+    written as a loop (plain traversal, no skipping adaptor)"""
+    import re as _re
+    while x[0] == "call" and len(x[2]) == 1 and x[1].rsplit("::", 1)[-1] in ("deref", "borrow"):
+        x = x[2][0]
+    if not (x[0] == "var" and isinstance(x[1], int)):
+        return False
+    defs = eb.def_exprs(x[1])
+    init = [d for d in defs if d[0] == "c" and float(d[1]) == 0.0]
+    upd = [d for d in defs if d[0] == "bin" and d[1] == "Add" and (d[2] == x or d[3] == x)]
+    if len(defs) != 2 or len(init) != 1 or len(upd) != 1:
+        return False
+    el = upd[0][3] if upd[0][2] == x else upd[0][2]
+    return bool(_re.match(r"^\(<std::slice::Iter<'a, T> as std::iter::Iterator>::next\((?:[^()]*::(?:into_iter|iter)\()?weight\)?\) as Some\)\.0$", show(el)))
+
+
 def helper_guards(p, call):
     """does the single Ok return of local helper `call` = h(self, .., weight, ..) sit behind the success
     edges of Weights::new(<its weight parameter>) and check_length(<that value>, self.nvoices)?"""
@@ -418,7 +435,8 @@ def run(ctx):
                     if (m == "ne" and not pos) or (m == "eq" and pos):
                         builder, lhs, rhs = c[2]
                         sides = [lhs, rhs]
-                        has_sum = any(x[0] == "call" and x[1].endswith("Iterator::sum") and "weight" in show(x) for s in sides for x in walk(s))
+                        has_sum = any(x[0] == "call" and x[1].endswith("Iterator::sum") and "weight" in show(x) for s in sides for x in walk(s)) \
+                            or any(_is_loop_sum(b, eb, s) for s in sides)
                         has_one = any(s[0] == "c" and float(s[1]) == 1.0 for s in sides) or any(
                             x[0] == "c" and x[1] == 1 for s in sides for x in walk(s) if s[0] != "call")
                         # epsilon: default (f64::EPSILON) or .epsilon(c) with c <= 1e-6
